@@ -15,6 +15,7 @@ import DracoProofs.EncBuf
 import Generated.Constants
 import Generated.FastDivTab
 import DracoProofs.GeneratedCore
+import DracoProofs.GeneratedBytes
 /-
   C17 — "Every primitive writer/reader pair of the bitstream layer is an exact inverse for all
   values: variable-length integers of every width and sign, byte-aligned scalars, bit sequences
@@ -331,5 +332,45 @@ theorem source_ofSymbol_is_model (v : Int) (hv : U32 v) :
     ConvertSymbolToSignedInt v = ofSymbol v.toNat := ConvertSymbolToSignedInt_eq_model v hv
 example : Generated.ConvertSymbolToSignedInt 5 = -3 := by
   rw [source_ofSymbol_is_model _ (by decide)]; decide
+
+open Generated in
+/-- `ans_write_end` (ans.h), with `mem_put_le16/24` which it calls: the bytes it stores at `buf[buf_offset ..]` (in
+    order, at consecutive offsets) and the size it returns are those of `ansWriteEnd`, for every 32-bit state — in
+    particular the 1/2/3-byte size classes `state − L < 2^6, 2^14, 2^22` -/
+theorem source_ansWriteEnd_is_model (a : AnsCoder) (hs : a.state < 2^32) (hl : a.out.length + 3 < 2^31) :
+    let g := ans_write_end ⟨a.out.length, a.state⟩
+    (ansWriteEnd a).map Int.ofNat = a.out.reverse.map Int.ofNat ++ g.2.map Prod.snd ∧
+    g.2.map Prod.fst = (List.range g.2.length).map (fun i => ((a.out.length + i : Nat) : Int)) ∧
+    g.1 = (ansWriteEnd a).length := ans_write_end_eq_model a hs hl
+example : (Generated.ans_write_end ⟨1, 4096 + 64⟩) = (3, [(1, 64), (2, 64)]) ∧ ansWriteEnd ⟨4096 + 64, [7]⟩ = [7, 64, 64] := by
+  decide
+
+open Generated in
+/-- `EncodeVarint<uint32_t>` (core/varint_encoding.h; its recursion unrolled with fuel 5) returns true and appends
+    `encVarint v` to the buffer, for every `uint32_t` -/
+theorem source_encodeVarint32_is_model (v : Int) (hv : U32 v) :
+    EncodeVarint_u32 5 v = some (true, (encVarint v.toNat).map Int.ofNat) := EncodeVarint_u32_eq_model v hv
+example : Generated.EncodeVarint_u32 5 300 = some (true, [172, 2]) := by
+  rw [source_encodeVarint32_is_model _ (by decide)]; decide
+
+open Generated in
+/-- `EncodeVarint<uint64_t>` (fuel 10) appends `encVarint v`, for every `uint64_t` -/
+theorem source_encodeVarint64_is_model (v : Int) (h0 : 0 ≤ v) (h1 : v < 2^64) :
+    EncodeVarint_u64 10 v = some (true, (encVarint v.toNat).map Int.ofNat) := EncodeVarint_u64_eq_model v h0 h1
+example : Generated.EncodeVarint_u64 10 (2^63) = some (true, [128, 128, 128, 128, 128, 128, 128, 128, 128, 1]) := by
+  rw [source_encodeVarint64_is_model _ (by decide) (by decide)]; decide
+
+open Generated in
+/-- the recursion limit of `DecodeVarintUnsigned<uint32_t / uint64_t>` (the declaration of `max_depth` and the test
+    `if (depth > max_depth) return false;`, cut out of the translated function): `max_depth` is `varintMaxDepth w` — the
+    byte budget of the model's `decVarint w` — and the call fails exactly beyond it -/
+theorem source_varintMaxDepth_is_model (depth : Int) (h0 : 0 ≤ depth) (h1 : depth < 2^31) :
+    DecodeVarintUnsigned_depthCheck_u32 depth =
+      (if depth > (varintMaxDepth 32 : Nat) then some false else none, ((varintMaxDepth 32 : Nat) : Int)) ∧
+    DecodeVarintUnsigned_depthCheck_u64 depth =
+      (if depth > (varintMaxDepth 64 : Nat) then some false else none, ((varintMaxDepth 64 : Nat) : Int)) :=
+  ⟨DecodeVarintUnsigned_depthCheck_u32_eq_model depth h0 h1, DecodeVarintUnsigned_depthCheck_u64_eq_model depth h0 h1⟩
+example : Generated.DecodeVarintUnsigned_depthCheck_u32 6 = (some false, 5) ∧
+    Generated.DecodeVarintUnsigned_depthCheck_u64 10 = (none, 10) := by decide
 
 end Draco.C17
